@@ -761,9 +761,11 @@ func (dht *FullRT) SearchValue(ctx context.Context, key string, opts ...routing.
 			return
 		}
 
-		ctx, cancel := context.WithTimeout(ctx, time.Second*5)
-		dht.updatePeerValues(ctx, key, best, updatePeers)
-		cancel()
+		// updatePeerValues only starts the corrective puts (one goroutine per
+		// peer, each with its own time-out). They must outlive this function and
+		// the caller's context, so they run under the DHT's own context, as in
+		// the standard client.
+		dht.updatePeerValues(dht.ctx, key, best, updatePeers)
 	}()
 
 	return out, nil
